@@ -8,6 +8,7 @@ import (
 	"fmt"
 	"os"
 	"reflect"
+	"strings"
 
 	"github.com/M2MGateway/go-smpp/pdu"
 )
@@ -29,9 +30,57 @@ func classifyFrame(b []byte) (kind string, id uint32, seq int32) {
 	return "fatal", 0, 0
 }
 
+// genCap: every rejection-sampling loop of the generators is bounded; running out of tries is a defect of the harness
+// (or of an input the generator was never meant for, e.g. a sequence number outside int32's positive range): a tool error, not a hang.
+func genCap(who string, tries int, what string) {
+	if tries >= 20000 {
+		fmt.Fprintf(os.Stderr, "harness generator %s found no acceptable value in %d tries (%s)\n", who, tries, what)
+		os.Exit(2)
+	}
+}
+
+// genRefused: a request PDU that pdu.Marshal refuses AFTER it has begun to encode it (header and possibly further fields
+// are already in its scratch buffer): stage in refusedStages.  The sequence number itself is acceptable.
+var refusedStages = []string{"nul-first-field", "nul-late-field", "short-message-141", "esm-class", "udh-element-256", "destinations-256"}
+
+func genRefused(r *Rng, stage string) interface{} {
+	sm := &pdu.SubmitSM{ServiceType: "svc", SourceAddr: pdu.Address{TON: 1, NPI: 1, No: "1000"}, DestAddr: pdu.Address{TON: 1, NPI: 1, No: "2000"}}
+	sm.Message.Message = r.Bytes(1 + r.Intn(20))
+	var p interface{} = sm
+	switch stage {
+	case "nul-first-field":
+		sm.ServiceType = "a\x00b"
+	case "nul-late-field":
+		sm.ValidityPeriod = "\x00"
+	case "short-message-141":
+		sm.Message.Message = r.Bytes(141 + r.Intn(60))
+	case "esm-class":
+		sm.ESMClass.MessageMode = 4 + byte(r.Intn(200))
+	case "udh-element-256":
+		sm.Message.UDHeader = pdu.UserDataHeader{0x24: r.Bytes(256)}
+	default:
+		p = &pdu.SubmitMulti{ServiceType: "svc", SourceAddr: pdu.Address{TON: 1, NPI: 1, No: "1000"},
+			DestAddrList: pdu.DestinationAddresses{DistributionList: make([]string, 0x100)}}
+	}
+	return p
+}
+
+// definedStatuses: every command_status the library has a name for (its table, read through String()), zero included,
+// plus a few it has none for.
+func sweepStatuses() []uint32 {
+	var out []uint32
+	for s := uint32(0); s < 0x600; s++ {
+		if strings.HasPrefix(pdu.CommandStatus(s).String(), "ESME_R") || s == 0 {
+			out = append(out, s)
+		}
+	}
+	return append(out, 0x0F, 0x400, 0x5FF, 0x7FFFFFFF, 0x80000000, 0xFFFFFFFF)
+}
+
 // genUnsolicited: a well-formed PDU of a random registered type carrying seq.
 func genUnsolicited(r *Rng, ts []pduType, seq int32) []byte {
-	for {
+	for tries := 0; ; tries++ {
+		genCap("genUnsolicited", tries, fmt.Sprintf("sequence %d", seq))
 		p := genSendable(r, ts, false, 1500)
 		if r.Intn(8) == 0 { // a non-zero command_status: header-only on the wire
 			h := pduHeader(p)
@@ -97,6 +146,7 @@ func pduHeader(p interface{}) *pdu.Header {
 // genBadFrame: intact framing, registered command_id, the given sequence number, undecodable body.
 func genBadFrame(r *Rng, ts []pduType, seq int32) []byte {
 	for tries := 0; ; tries++ {
+		genCap("genBadFrame", tries, fmt.Sprintf("sequence %d", seq))
 		var f []byte
 		if r.Bool() {
 			// a valid frame cut short inside its body
@@ -257,7 +307,25 @@ var connVariant = func() string {
 // in all three runs is kept.  Forced schedules are deterministic, so a defect
 // reproduces; a hiccup of a heavily loaded machine (a goroutine not scheduled
 // for a second while "promptly" is being measured) does not.
+// A defect that keeps a library goroutine busy for ever (a loop that retries a failed Read) costs the quiescence cap in
+// every scenario that meets it, three times over: once it has been confirmed connSpinLimit times the remaining scenarios
+// of the run are not started (the verdict is a violation anyway; running on would end as a tool error, not a finding).
+const connSpinLimit = 3
+
+var connSpins int
+
+var connConfirmed = map[string]int{} // failure class -> times it was confirmed by three runs
+
 func confirmed(r *Run, scenario func()) {
+	if connSpins >= connSpinLimit {
+		return
+	}
+	defer func() {
+		if n := r.failSeen["sched/not-quiescent"]; n >= connSpinLimit && connSpins < connSpinLimit {
+			connSpins = n
+			r.Notes = append(r.Notes, fmt.Sprintf("%d scenarios left library goroutines running for ever (sched/not-quiescent): the remaining scenarios of this run were not started", n))
+		}
+	}()
 	rng := *r.Rng
 	nFail, nCase, nEval := len(r.Failures), len(r.caseExprs), r.Evaluations
 	seen := map[string]int{}
@@ -278,6 +346,30 @@ func confirmed(r *Run, scenario func()) {
 	if sameCounts(seen, r.failSeen) {
 		return
 	}
+	// classes this run raised; a class that has already been confirmed twice by three runs each is not re-run again
+	// (a tree on which most scenarios fail would otherwise cost three times the run and end as a tool error under load)
+	var raised []string
+	settled := true
+	for k, v := range r.failSeen {
+		if v > seen[k] {
+			raised = append(raised, k)
+			if connConfirmed[k] < 2 {
+				settled = false
+			}
+		}
+	}
+	if settled {
+		return
+	}
+	defer func() {
+		if !sameCounts(seen, r.failSeen) {
+			for _, k := range raised {
+				if r.failSeen[k] > seen[k] {
+					connConfirmed[k]++
+				}
+			}
+		}
+	}()
 	first := append([]Failure(nil), r.Failures[nFail:]...)
 	note := func(which string) {
 		cls := ""
